@@ -42,6 +42,27 @@ class Node:
         return {"dir": self.name, "arg": self.arg, "options": self.options,
                 "items": [x if x[0] != "dir" else ("dir", x[1].to_dict()) for x in self.items if x[0] != "blank"]}
 
+    def doc_lines(self, generated_fields=()):
+        """Body lines that stem from the doc text: plain text plus field-looking lines that are not
+        among the fields the entry kind generates itself (generated ones are consumed once each, last first)."""
+        gen = list(generated_fields)
+        out = []
+        # generated fields come after the doc text, so consume matches from the end
+        flags = []
+        for x in reversed(self.items):
+            if x[0] == "field" and (x[1], x[2]) in gen:
+                gen.remove((x[1], x[2]))
+                flags.append(False)
+            else:
+                flags.append(True)
+        flags.reverse()
+        for x, keep in zip(self.items, flags):
+            if x[0] == "text":
+                out.append(x[1])
+            elif x[0] == "field" and keep:
+                out.append(x[3])
+        return out
+
 
 def parse_block(lines, start_no=0):
     """lines: dedented body lines -> ordered items."""
@@ -78,7 +99,7 @@ def parse_block(lines, start_no=0):
             continue
         m = FIELD_RE.match(line)
         if m:
-            items.append(("field", m.group(1), m.group(2)))
+            items.append(("field", m.group(1), m.group(2), line))
         else:
             items.append(("text", line))
         i += 1
